@@ -1,6 +1,7 @@
 package simpledb
 
 import (
+	"bytes"
 	"errors"
 	"fmt"
 	"os"
@@ -240,8 +241,9 @@ func (db *DB) GetBytes(keyBytes []byte) ([]byte, error) {
 		}
 	}
 
-	// memstore always wins if there is a value available
-	return memStoreVal, nil
+	// memstore always wins if there is a value available. The caller gets a copy: the slice itself stays in the memstore
+	// and is what the next flush writes
+	return bytes.Clone(memStoreVal), nil
 }
 
 func (db *DB) Put(key, value string) error {
@@ -260,6 +262,10 @@ func (db *DB) PutBytes(keyBytes, valBytes []byte) error {
 	if len(keyBytes) == 0 || len(valBytes) == 0 {
 		return ErrEmptyKeyValue
 	}
+
+	// the database keeps what it is given (in the memstore, until the next flush): it works on private copies, the
+	// caller is free to reuse its buffers once the call has returned
+	keyBytes, valBytes = bytes.Clone(keyBytes), bytes.Clone(valBytes)
 
 	// proto marshal takes 60%(!) of this method execution time
 	walBytes, err := proto.Marshal(&dbproto.WalMutation{
@@ -321,7 +327,10 @@ func (db *DB) DeleteBytes(byteKey []byte) error {
 		return ErrEmptyKeyValue
 	}
 
-	bytes, err := proto.Marshal(&dbproto.WalMutation{
+	// the key can end up in the memstore (as a tombstone): keep a private copy, see PutBytes
+	byteKey = bytes.Clone(byteKey)
+
+	walBytes, err := proto.Marshal(&dbproto.WalMutation{
 		Mutation: &dbproto.WalMutation_DeleteTombStone{
 			DeleteTombStone: &dbproto.DeleteTombstoneMutation{
 				KeyBytes: byteKey,
@@ -344,12 +353,12 @@ func (db *DB) DeleteBytes(byteKey []byte) error {
 	}
 
 	if db.enableAsyncWAL {
-		err = db.wal.Append(bytes)
+		err = db.wal.Append(walBytes)
 		if err != nil {
 			return err
 		}
 	} else {
-		err = db.wal.AppendSync(bytes)
+		err = db.wal.AppendSync(walBytes)
 		if err != nil {
 			return err
 		}
